@@ -102,7 +102,20 @@ def generate(rng, index: int, tier: str) -> dict:
         victim = rng.randrange(len(frames))
         fr = bytearray(frames[victim])
         hl = 8 if gen == 4 else 20
-        where = rng.choice(["len", "type", "payload", "payload", "subhdr", "addr", "names"] + (["count", "count"] if gen == 5 else ["partial", "partial"]))
+        where = rng.choice(["len", "type", "payload", "payload", "subhdr", "addr", "names", "nocrc"] + (["count", "count"] if gen == 5 else ["partial", "partial"]))
+        if where == "nocrc":
+            # damage that line noise would cause - the check bytes are NOT brought up to date: the type byte of a known frame
+            # flipped (mostly into an unknown type), or an unknown-type frame with a damaged payload / check byte
+            if rng.random() < 0.5:
+                fr = bytearray(frames[victim])
+                fr[hl - 3] ^= 1 << rng.randint(0, 7)
+            else:
+                fr = bytearray(framegen.unknown_frame(rng, gen)[0])
+                pos = rng.randint(hl - 3, len(fr) - 1)
+                fr[pos] ^= 1 << rng.randint(0, 7)
+            frames[victim] = bytes(fr)
+            data = b"".join(frames)
+            info["where"] = where
         if where == "names":
             # a names answer whose records do not add up: the last name announces more bytes than the frame holds, the
             # frame ends inside the last name or right behind a zone number (AT4: not a whole number of 9-byte records);
@@ -176,7 +189,8 @@ def generate(rng, index: int, tier: str) -> dict:
             for _ in range(rng.choice([1, 1, 2, 5])):
                 pos = rng.randint(hl, len(fr) - 3)
                 fr[pos] = rng.randrange(256) if rng.random() < 0.5 else fr[pos] ^ (1 << rng.randint(0, 7))
-        frames[victim] = _recrc(gen, fr)
+        if where != "nocrc":
+            frames[victim] = _recrc(gen, fr)
         data = b"".join(frames)
         info["where"] = where
     elif cls == "truncated":
